@@ -72,7 +72,7 @@ def run(prog, chk):
     chk.rule("C07.chain", "must-pass chain before a signature is handed out", floor=20)
     chk.rule("C07.request", "sign request: trusted algorithm, level range, hash and level passed on unchanged", floor=5)
     chk.rule("C07.status", "service status conversion table", floor=20)
-    chk.rule("C07.noverify", "only the frozen set of functions switches off the builder's verification", floor=5)
+    chk.rule("C07.noverify", "only the frozen set of functions switches off the builder's verification", floor=3)
     chk.rule("C07.policy", "library-internal signing calls verify the new signature under a policy that contains the internal rules", floor=5)
 
     fs = prog.fn("KSI_Signature_signAggregatedWithPolicy", "signature.c")
